@@ -107,6 +107,18 @@ func (c20) Exec(h []Ev) []Ev {
 				es := psi.NewPmtElementaryStream(0x1b, 0x100, []psi.PmtDescriptor{d})
 				e["es_bitrate"] = int(es.MaxBitRate())
 				e["es_ttml"] = es.IsTTMLSubtitling()
+				// the same descriptor among descriptors of other kinds (never a second maximum_bitrate or
+				// extension descriptor), at every position: the stream-level answers are the same
+				same := true
+				others := []psi.PmtDescriptor{psi.NewPmtDescriptor(10, []byte("eng\x00")), psi.NewPmtDescriptor(5, []byte("AC-3")), psi.NewPmtDescriptor(82, []byte{7})}
+				for pos := 0; pos <= len(others); pos++ {
+					ds := append(append(append([]psi.PmtDescriptor{}, others[:pos]...), d), others[pos:]...)
+					es2 := psi.NewPmtElementaryStream(0x1b, 0x100, ds)
+					if es2.MaxBitRate() != es.MaxBitRate() || es2.IsTTMLSubtitling() != es.IsTTMLSubtitling() {
+						same = false
+					}
+				}
+				e["es_among_others_same"] = same
 			})
 		case "pmtlags":
 			p := evAbsPMT(e["pmt"])
